@@ -397,6 +397,9 @@ class Parser:
     def parse_prefix_expression(self, stream: TokenStream) -> Expression:
         tok = stream.next_token()
         assert tok.type_ == TokenType.NOT
+        if stream.current.type_ == TokenType.NOT:
+            # Only a parenthesized expression, a query or a function can be negated.
+            raise JSONPathSyntaxError("unexpected '!'", token=stream.current)
         right = self.parse_filter_expression(stream, precedence=self.PRECEDENCE_PREFIX)
         self._raise_for_uncompared(right)
         return PrefixExpression(tok, operator="!", right=right)
